@@ -198,7 +198,7 @@ def run(ctx):
     ra = ctx.tlc('MC_PipelineS', ctx.pick('MC_PipelineS_HA.cfg', 'MC_PipelineS_HA2.cfg'), env=env, workers=4, timeout=ctx.pick(280, 1500), count=False)
     behaviours = list({digest(b): b for b in ra.json}.values())
     ctx.extra['spec_behaviours_exported'] = len(behaviours)
-    cap = ctx.pick(5000, 150000)
+    cap = ctx.pick(4000, 150000)
     if len(behaviours) > cap:
         rng.shuffle(behaviours)
         behaviours = behaviours[:cap]
@@ -213,11 +213,11 @@ def run(ctx):
         rng.shuffle(sessions)
         sessions = sessions[:cap]
     H.replay_behaviours(ctx, OWN, sessions, both=False, seen_other=seen_other, label='leg A (two-request sessions)', rich=True)
-    rs = ctx.tlc('MC_PipelineS', 'MC_PipelineS_HSim.cfg', env=env, simulate={'num': ctx.pick(250, 6000)}, depth=40,
+    rs = ctx.tlc('MC_PipelineS', 'MC_PipelineS_HSim.cfg', env=env, simulate={'num': ctx.pick(120, 3000)}, depth=40,
                  seed=ctx.seed + 1, workers=4, timeout=600, count=False)
     deep = list({digest(b): b for b in rs.json}.values())
     rng.shuffle(deep)
-    H.replay_behaviours(ctx, OWN, deep[:ctx.pick(1500, 40000)], both=True, seen_other=seen_other,
+    H.replay_behaviours(ctx, OWN, deep[:ctx.pick(600, 15000)], both=True, seen_other=seen_other,
                         label='leg A (simulated registries)', rich=True)
 
     # ---- leg A: rendering table ------------------------------------------------------------------
